@@ -94,8 +94,16 @@ META = {
                     'get_block_diag / scale_block_inverse / filter_operator: the Lean models are the dense definitions (exact '
                     'Moore-Penrose inverse, exact local inverse), compared with tolerance 1e-8',
                     'utility calls run in forked child processes: a call that kills the interpreter is reported with its input',
-                    'part J leaves out BSR input that has unsorted indices AND non-contiguous block data outside the scaling routines: '
-                    'SciPy 1.18 bsr sort_indices() (called in place by get_diagonal) permutes the indices but not such data'],
+                    'BSR input that has unsorted indices AND non-contiguous block data is generated for the scaling routines and for '
+                    'get_diagonal only (part J + one fixed corpus case): SciPy 1.18 bsr sort_indices(), called in place by get_diagonal, '
+                    'permutes the indices but not such data -- listed finding get-diagonal-bsr-noncontiguous-unsorted, given only when '
+                    'the stored arrays are in exactly that class (BSR, strided data, a block row with descending column indices)',
+                    'part K: approximate_spectral_radius in [0.9 rho, rho(1 + 1e-10)] and condest == cond_2 (1e-6), cond (1e-10) on the '
+                    'Hermitian / condition families rescaled to rho >= 1e-6 (class small: the bounds hold) and to an operator 2-norm '
+                    '(A, or A^H A on the general path of condest) in 1e-24 .. 4e-11 (class tiny: the absolute breakdown threshold 2.2e-10 of '
+                    '_approximate_eigenvalues exceeds H[1, 0] <= ||operator||_2 -- listed finding spectral-radius-absolute-breakdown, given '
+                    'only when that 2-norm, computed from the dense matrix, is < 2e-10 and only to a too-small estimate / wrong condest); '
+                    'fixed corpus case 2^-40 poisson((4,)); operator norms between 2e-10 and 1e-7 are not generated and not listed'],
     'partial': ['truncate_rows: closed by extension E9 -- qsort_correct proves the literal quicksort model sorts every input '
                 '(fuel >= segment length - 1), truncate_row_spec_unconditional needs no certificate and '
                 'trunc_certificate_always shows the sorted-ok flag of the driver (still reported) can never be false',
@@ -148,6 +156,8 @@ META = {
 FK_DIAG_NONCSR = 'filter-rows-diagonal-non-csr-noop'
 FK_DUP = 'filter-truncate-duplicate-stored-entries'
 FK_RHO = 'spectral-radius-overshoot-lost-orthogonality'
+FK_BREAK = 'spectral-radius-absolute-breakdown'
+FK_BSRSORT = 'get-diagonal-bsr-noncontiguous-unsorted'
 
 
 def _key(*a):
@@ -2209,7 +2219,7 @@ def _wmat(rng, t, *, square=False, fmts=('csr', 'csc', 'bsr', 'coo'), cplx=None,
     dup = fmt == 'coo' and bool(rng.random() < 0.5)         # duplicates only where the storage format defines them as a sum
     zeros = fmt != 'bsr' and bool(rng.random() < 0.2)
     # unsorted BSR indices over non-contiguous block data: SciPy's bsr sort_indices() permutes the indices but not the data
-    # (reported); outside the scaling routines (which never sort) that combination is left out
+    # (listed finding of get_diagonal, which sorts its argument in place: generated there and for the scaling routines, which never sort)
     noncontig = fmt == 'bsr' and bool(rng.random() < 0.2) and (noncontig_unsorted_ok or not unsorted)
     spec = compress(rng, D, fmt, unsorted=unsorted, dup=dup, zeros=zeros, bs=bs, noncontig=noncontig)
     for nm, f in (('unsorted', unsorted), ('duplicates', dup), ('explicit_zeros', zeros), ('noncontiguous_data', noncontig)):
@@ -2242,7 +2252,7 @@ def _gw_scale(rng, t):
 
 
 def _gw_diag(rng, t):
-    spec, D, feats = _wmat(rng, t, square=bool(rng.random() < 0.8), diag=_diag_gen)
+    spec, D, feats = _wmat(rng, t, square=bool(rng.random() < 0.8), diag=_diag_gen, noncontig_unsorted_ok=True)
     s = _wscale(rng)
     spec = _scaled_spec(spec, s)
     if rng.random() < 0.15:
@@ -2409,6 +2419,27 @@ def _ew_scale(ctx, c, it):
             ctx.violation(f'scale_{which}({fmt}, copy=True) returned a matrix that shares its data with the input', c)
 
 
+def _bsr_unsorted_noncontig(spec):
+    """the input class of the listed finding, decided from the stored arrays: BSR, block data not C-contiguous, and at least
+    one block row whose column indices are not ascending (so that sort_indices() has something to do)"""
+    if spec.get('fmt') != 'bsr' or not spec.get('noncontig'):
+        return False
+    ip, ix = spec['indptr'], spec['indices']
+    return any(ix[k] > ix[k + 1] for i in range(len(ip) - 1) for k in range(ip[i], ip[i + 1] - 1))
+
+
+def _corpus_diag():
+    """fixed case of the listed finding: 8 x 8, blocks (1, 4), both blocks of every row stored in descending order, strided data"""
+    D = np.array([[((3 * i + 5 * j) % 7) + 1.0 for j in range(8)] for i in range(8)])
+    A = sp.bsr_array(D, blocksize=(1, 4))
+    A.sort_indices()
+    ix = A.indices.reshape(8, 2)[:, ::-1].ravel()
+    dat = A.data.reshape(8, 2, 1, 4)[:, ::-1].reshape(16, 1, 4)
+    spec = {'fmt': 'bsr', 'shape': [8, 8], 'complex': False, 'blocksize': [1, 4], 'indptr': A.indptr.tolist(), 'indices': ix.tolist(),
+            'data': _encv(dat), 'noncontig': True}
+    return {'op': 'wide', 'sub': 'diag', 'A': spec, 'norm_eq': 1, 'inv': True, 'scales': [1.0], 'corpus': True}, {'corpus', 'bsr', 'wide:diag'}
+
+
 def _ew_diag(ctx, c, it):
     U = _U()
     spec = c['A']
@@ -2429,12 +2460,15 @@ def _ew_diag(ctx, c, it):
         ref = np.diag(D @ D.conj().T)
     if inv:
         ref = np.array([0 if x == 0 else 1 / x for x in ref], dtype=ref.dtype)
+    fk = FK_BSRSORT if _bsr_unsorted_noncontig(spec) else None
+    if fk:
+        it.feats.add('bsr_unsorted_noncontiguous')
     d = np.asarray(U.get_diagonal(A, norm_eq=c['norm_eq'], inv=inv))
     if d.shape != ref.shape or not rclose_each(d, ref, 1e-10):
         ctx.violation(f'get_diagonal({spec["fmt"]}, norm_eq={c["norm_eq"]}, inv={inv}, scale {c["scales"]}): expected {ref.tolist()} got {d.tolist()} '
-                      f'(entrywise relative 1e-10)', c)
+                      f'(entrywise relative 1e-10)', c, fkey=fk)
     if sp.issparse(A) and not close(A.toarray(), D, 0):
-        ctx.violation('get_diagonal changed the value of its input', c)
+        ctx.violation(f'get_diagonal({spec["fmt"]}) changed the value of its input', c, fkey=fk)
 
 
 def _ew_symresc(ctx, c, it):
@@ -2768,6 +2802,136 @@ def eval_wide(ctx, c, feats=()):
 
 
 # ------------------------------------------------------------------------------------------------
+# part K (search only): spectral-radius and condition estimates far away from unit scale.  Both clauses are homogeneous in A.
+#   `small` : rho(A) (resp. ||A||_2) down to about 1e-6 -- the unchanged code still meets the bounds there
+#   `tiny`  : ||operator||_2 < 5e-11 (the operator is A, or A^H A on the general path of condest).  The breakdown test of
+#             _approximate_eigenvalues is H[j+1, j] < set_tol = 2.2e-10 ABSOLUTE and H[1, 0] <= ||operator||_2, so the first
+#             step is certain to "break down": listed finding FK_BREAK, given ONLY when ||operator||_2 < 2e-10 (computed
+#             from the dense matrix) and only to the clauses that breakdown can break (lower bound / condest value).
+#             In between (2e-10 .. 1e-7) nothing is generated and nothing is listed.
+# ------------------------------------------------------------------------------------------------
+
+BREAK_CLASS = 2e-10          # < set_tol(float64) = 2.22e-10
+
+
+def _tiny_target(rng):
+    return float(10.0 ** -rng.uniform(10.4, 24.0))
+
+
+def _pow2_floor(s):
+    return float(2.0 ** np.floor(np.log2(s)))
+
+
+def _rho_one(ctx, M, kind, fmt, opts, seed, cls, scale):
+    """one call of approximate_spectral_radius judged against [0.9 rho, rho], every tolerance relative to rho"""
+    from pyamg.util import linalg as L
+    n = M.shape[0]
+    rho = float(np.abs(np.linalg.eigvalsh(M)).max())
+    A = M.copy() if fmt == 'dense' else (sp.csr_array(M) if fmt == 'csr' else sp.csc_array(M))
+    in_class = rho < BREAK_CLASS
+    case = {'op': 'rho', 'kind': kind, 'n': n, 'fmt': fmt, 'seed': seed, 'complex': bool(np.iscomplexobj(M)), 'class': cls, 'scale': scale,
+            'rho': rho, 'M': _encv(M) if n <= 12 else None,
+            'opts': {k: (v if not isinstance(v, np.ndarray) else _encv(v)) for k, v in opts.items()}}
+    ctx.case(key=_key('rho-scaled', kind, n, fmt, seed, cls, scale, sorted((k, str(v)) for k, v in case['opts'].items())), nontrivial=n >= 2)
+    ctx.feat('op:approximate_spectral_radius')
+    ctx.feat('rho_scale:' + cls)
+    if in_class:
+        ctx.feat('rho:norm_below_breakdown_threshold')
+    np.random.seed(seed)
+    try:
+        with warnings.catch_warnings():
+            warnings.simplefilter('ignore')
+            r = L.approximate_spectral_radius(A, **opts)
+    except Exception as e:
+        ctx.violation(f'approximate_spectral_radius({kind}, n={n}, {fmt}, rho={rho:.3e}) raised {type(e).__name__}: {e}', case)
+        return
+    if opts.get('return_vector'):
+        r = r[0]
+    r = float(np.real(r))
+    if not np.isfinite(r):
+        ctx.violation(f'approximate_spectral_radius({kind}, n={n}, rho={rho:.3e}) returned {r}', case)
+        return
+    if rho > 0:
+        ctx.rel_err(max(0.0, r / rho - 1))
+    if r > rho * (1 + 1e-10):
+        ctx.violation(f'approximate_spectral_radius({kind}, n={n}, {fmt}, opts={list(opts)}) = {r!r} exceeds the spectral radius {rho!r} '
+                      f'(relative overshoot {r / rho - 1 if rho else float("inf"):.3e})', case, fkey=FK_RHO if r <= rho * 1.01 else None)
+    if r < 0.9 * rho:
+        ctx.violation(f'approximate_spectral_radius({kind}, n={n}, {fmt}, opts={list(opts)}) = {r!r} is below 0.9 * rho, rho = {rho!r} '
+                      f'(ratio {r / rho:.4f}; ||A||_2 {"<" if in_class else ">="} {BREAK_CLASS})', case, fkey=FK_BREAK if in_class else None)
+
+
+def part_krylov_scaled(ctx, N):
+    from pyamg.util import linalg as L
+    rng = ctx.np_rng
+    # fixed corpus case of the listed finding: 2^-40 * poisson((4,)); every Rayleigh quotient of a positive start vector is <= 2 s < 0.9 * 3.618 s
+    P4 = 2.0 ** -40 * sp.diags_array([-np.ones(3), 2 * np.ones(4), -np.ones(3)], offsets=[-1, 0, 1]).toarray()
+    _rho_one(ctx, P4, 'poisson1d', 'csr', {}, 0, 'corpus', 2.0 ** -40)
+    for t in range(N):
+        M, kind = herm_matrix(rng, t)
+        n = M.shape[0]
+        rho0 = float(np.abs(np.linalg.eigvalsh(M)).max())
+        if rho0 == 0 or n > 150:
+            continue
+        cls = ['tiny', 'small', 'tiny', 'small'][t % 4]
+        if cls == 'tiny':
+            s = _tiny_target(rng) / rho0
+            if rng.random() < 0.5:
+                s = _pow2_floor(s)
+        else:
+            s = float(rng.choice([2.0 ** -10, 2.0 ** -16, 1e-3, 1e-5]))
+        g = t % 5
+        opts = {}
+        if g == 1:
+            opts = {'tol': float(rng.choice([1e-2, 1e-4])), 'maxiter': 15, 'restart': int(rng.choice([5, 10]))}
+        elif g == 2:
+            v0 = rng.random((n, 1)) + (1j * rng.random((n, 1)) if np.iscomplexobj(M) else 0)
+            opts = {'initial_guess': v0}
+        elif g == 3:
+            opts = {'return_vector': True}
+        _rho_one(ctx, M * s, kind, ['csr', 'dense', 'csc'][t % 3], opts, int(rng.integers(0, 2 ** 31 - 1)), cls, s)
+    for t in range(N):
+        M, kappa, sym, cplx = cond_matrix(rng, t)
+        n = M.shape[0]
+        use_sym = sym and (t % 3 != 2)
+        n2 = float(np.linalg.norm(M, 2))
+        cls = 'tiny' if (not use_sym or (t // 2) % 2 == 0) else 'small'       # general path: A^H A, no safe small class measured
+        if cls == 'tiny':
+            tgt = _tiny_target(rng)
+            s = (tgt if use_sym else np.sqrt(tgt)) / n2
+            if rng.random() < 0.5:
+                s = _pow2_floor(s)
+        else:
+            s = float(rng.choice([2.0 ** -10, 1e-3]))
+        Ms = M * s
+        opn = float(np.linalg.norm(Ms, 2)) ** (1 if use_sym else 2)
+        in_class = opn < BREAK_CLASS
+        fmt = ['dense', 'csr', 'csc'][t % 3]
+        A = Ms.copy() if fmt == 'dense' else (sp.csr_array(Ms) if fmt == 'csr' else sp.csc_array(Ms))
+        seed = int(rng.integers(0, 2 ** 31 - 1))
+        maxiter = int(rng.choice([25, n, n + 3]))
+        case = {'op': 'condest', 'n': n, 'complex': cplx, 'hermitian': sym, 'symmetric_flag': use_sym, 'fmt': fmt, 'seed': seed,
+                'maxiter': maxiter, 'M': _encv(Ms), 'class': cls, 'scale': s, 'operator_norm': opn}
+        ctx.case(key=_key('condest-scaled', _encv(Ms), use_sym, fmt, seed, maxiter), nontrivial=n >= 2)
+        ctx.feat('op:condest')
+        ctx.feat('condest_scale:' + cls)
+        np.random.seed(seed)
+        try:
+            with warnings.catch_warnings():
+                warnings.simplefilter('ignore')
+                ce = float(np.real(L.condest(A, maxiter=maxiter, symmetric=use_sym)))
+                cc = float(np.real(L.cond(A)))
+        except Exception as e:
+            ctx.violation(f'condest/cond(n={n}, {fmt}, symmetric={use_sym}, scale {s:.3e}) raised {type(e).__name__}: {e}', case)
+            continue
+        if not (abs(ce - kappa) <= 1e-6 * kappa):
+            ctx.violation(f'condest(n={n}, {"complex" if cplx else "real"} {"Hermitian" if sym else "general"}, symmetric={use_sym}, maxiter={maxiter}, '
+                          f'||operator||_2 = {opn:.3e}) = {ce!r}, 2-norm condition number = {kappa!r}', case, fkey=FK_BREAK if in_class else None)
+        if not (abs(cc - kappa) <= 1e-10 * kappa):
+            ctx.violation(f'cond(n={n}, {fmt}, scale {s:.3e}) = {cc!r}, 2-norm condition number = {kappa!r}', case)
+
+
+# ------------------------------------------------------------------------------------------------
 # driver
 # ------------------------------------------------------------------------------------------------
 
@@ -2822,10 +2986,12 @@ def _in_child(e, batch):
     return status
 
 
-def run_part(ctx, name, N, chunk=40):
+def run_part(ctx, name, N, chunk=40, cases=None):
     g, e = PARTS[name]
     rng = ctx.np_rng
-    cases = [g(rng, t) for t in range(N)]
+    if cases is None:
+        cases = [g(rng, t) for t in range(N)]
+    N = len(cases)
     items = []
 
     def take(res):
@@ -2865,6 +3031,8 @@ def run(ctx):
     part_arnoldi(ctx, q(240, 4000))
     part_e52(ctx, q(320, 8000))
     flush(ctx, run_part(ctx, 'wide', q(2400, 48000)))      # part J last: the random streams of the parts above stay as validated
+    flush(ctx, run_part(ctx, 'wide', 1, cases=[_corpus_diag()]))      # fixed corpus cases of the two listed findings
+    part_krylov_scaled(ctx, q(150, 3000))
     _order(ctx)
 
 
@@ -2882,6 +3050,8 @@ def search(ctx):
     part_cond(ctx, 1000)
     part_arnoldi(ctx, 600)
     part_e52(ctx, 1200)
+    flush(ctx, run_part(ctx, 'wide', 1, cases=[_corpus_diag()]))
+    part_krylov_scaled(ctx, 600)
     _order(ctx)
 
 
